@@ -149,6 +149,44 @@ def check_state(prog: Program, res: Result) -> None:
     res.floor(R, 10)
 
 
+def _is_not_empty_test(t: ast.AST) -> Optional[str]:
+    """name X if t is `not X.is_empty`."""
+    if isinstance(t, ast.UnaryOp) and isinstance(t.op, ast.Not) and isinstance(t.operand, ast.Attribute) and t.operand.attr == "is_empty":
+        return norm(t.operand.value)
+    return None
+
+
+def _nonempty_guard(fn: ast.AST, test: ast.AST):
+    """Does `test` hold exactly when a non-empty instance exists?  Direct forms (`not inst.is_empty`,
+    any(not i.is_empty for i in ...)) and a boolean flag of either polarity flipped under `if not inst.is_empty`."""
+    if _is_not_empty_test(test) is not None:
+        return True, "instance is not empty"
+    if isinstance(test, ast.Call) and norm(test.func) == "any" and test.args and isinstance(test.args[0], (ast.GeneratorExp, ast.ListComp)) \
+            and _is_not_empty_test(test.args[0].elt) is not None and not test.args[0].generators[0].ifs:
+        return True, "some instance is not empty"
+    neg = isinstance(test, ast.UnaryOp) and isinstance(test.op, ast.Not)
+    flag = test.operand if neg else test
+    if not isinstance(flag, ast.Name):
+        return False, "not an emptiness test"
+    sets = [s_ for s_ in walk_function(fn) if isinstance(s_, ast.Assign) and norm(s_.targets[0]) == flag.id]
+    if len(sets) != 2 or not all(isinstance(s_.value, ast.Constant) and isinstance(s_.value.value, bool) for s_ in sets):
+        return False, f"flag `{flag.id}` is not a two-valued emptiness flag"
+    init = [s_ for s_ in sets if not any(isinstance(a, ast.If) for a in ancestors(s_) if astq.in_body_of(s_, a) or astq.in_body_of(s_, a, "orelse"))]
+    flip = [s_ for s_ in sets if s_ not in init]
+    if len(init) != 1 or len(flip) != 1 or init[0].value.value == flip[0].value.value:
+        return False, f"flag `{flag.id}` is not initialised once and flipped once"
+    conds = [a for a in ancestors(flip[0]) if isinstance(a, ast.If) and astq.in_body_of(flip[0], a)]
+    if len(conds) != 1 or _is_not_empty_test(conds[0].test) is None:
+        return False, f"flag `{flag.id}` is not flipped exactly under `not inst.is_empty`"
+    # the flip happens in a loop over the frame's instances, after the initialisation, and the test comes after the loop
+    loops = astq.enclosing_loops(flip[0])
+    if not loops or init[0].lineno > loops[0].lineno:
+        return False, "flag not initialised before the instance loop"
+    v0 = init[0].value.value  # value meaning "no non-empty instance seen"
+    holds_when_seen = (not neg and v0 is False) or (neg and v0 is True)
+    return holds_when_seen, "polarity" if not holds_when_seen else "flag"
+
+
 def check_len(prog: Program, res: Result) -> None:
     R = "C11-len"
     for cname, lst, builder in (("BaseDataset", "lf_idx_list", "_get_lf_idx_list"), ("CenteredInstanceDataset", "instance_idx_list", "_get_instance_idx_list")):
@@ -171,15 +209,11 @@ def check_len(prog: Program, res: Result) -> None:
         for c in apps:
             guards = [a for a in ancestors(c) if isinstance(a, ast.If)]
             g = guards[0] if guards else None
-            ok = g is not None and norm(g.test) in ("not is_empty", "not inst.is_empty")
-            res.ob(R, ok, b.qualname, "only non-empty entries are indexed", f"an index is appended under `{short(g.test, 30) if g else 'no condition'}`: empty instances produce samples",
+            ok, why = _nonempty_guard(b.node, g.test) if g is not None else (False, "no condition")
+            res.ob(R, ok, b.qualname, "only non-empty entries are indexed", f"an index is appended under `{short(g.test, 30) if g else 'no condition'}` ({why}): empty instances produce samples",
                    f"{b.module.relpath}:{c.lineno}")
         if builder == "_get_lf_idx_list":
-            # is_empty becomes False exactly when some instance is not empty
-            sets = [s for s in walk_function(b.node) if isinstance(s, ast.Assign) and norm(s.targets[0]) == "is_empty"]
-            f = [s for s in sets if norm(s.value) == "False"]
-            ok = len(sets) == 2 and len(f) == 1 and any(isinstance(a, ast.If) and norm(a.test) == "not inst.is_empty" for a in ancestors(f[0]))
-            res.ob(R, ok, b.qualname, "a frame is non-empty iff some instance is not empty", "the emptiness flag is not cleared exactly by a non-empty instance", b.where)
+            res.count(R)
         init = ci.methods.get("__init__")
         asg = [s for s in walk_function(init.node) if isinstance(s, ast.Assign) and norm(s.targets[0]) == f"self.{lst}"]
         res.ob(R, len(asg) == 1 and f"self.{builder}()" in norm(asg[0].value), init.qualname, f"self.{lst} built by {builder}()", f"self.{lst} is not built by {builder}", init.where)
@@ -228,6 +262,9 @@ VARIANTS = [
             "        self.last_index = index\n        img_hw = sample[\"image\"].shape[-2:]\n\n        # Generate confidence maps\n        confidence_maps = generate_confmaps(\n            sample[\"instances\"],", "C11-state"),
     Variant("len-all-frames", CDF, "        return len(self.lf_idx_list)", "        return len(self.labels)", "C11-len"),
     Variant("index-empty-too", CDF, "                if not inst.is_empty:  # filter all NaN instances.\n                    instance_idx_list.append((lf_idx, inst_idx))", "                if inst is not None:\n                    instance_idx_list.append((lf_idx, inst_idx))", "C11-len"),
+    Variant("bp-len-flag-polarity", "sleap_nn/data/custom_datasets.py", "            is_empty = True\n            for _, inst in enumerate(lf.instances):\n                if not inst.is_empty:  # filter all NaN instances.\n                    is_empty = False\n            if not is_empty:",
+            "            has_any = False\n            for inst in lf.instances:\n                if not inst.is_empty:\n                    has_any = True\n            if has_any:", None),
+    Variant("len-flag-wrong-polarity", "sleap_nn/data/custom_datasets.py", "            if not is_empty:\n                lf_idx_list.append((lf_idx))", "            if is_empty:\n                lf_idx_list.append((lf_idx))", "C11-len"),
     Variant("bp-clone-then-write", CENT, "    missing_anchors = torch.isnan(centroids).any(dim=-1)", "    centroids = centroids.clone()\n    missing_anchors = torch.isnan(centroids).any(dim=-1)", None),
     Variant("bp-deepcopy", CDF, "            sample = self.cache[index].copy()\n\n        # apply augmentation\n        if self.apply_aug:\n            if \"intensity\" in self.data_config.augmentation_config:\n                sample[\"image\"], sample[\"centroids\"]",
             "            sample = dict(self.cache[index])\n\n        # apply augmentation\n        if self.apply_aug:\n            if \"intensity\" in self.data_config.augmentation_config:\n                sample[\"image\"], sample[\"centroids\"]", None),
